@@ -346,15 +346,15 @@ func init() {
 	register("C04", func(r *Run) error {
 		classes := unicodeClassNames(r.Repo)
 		return runB(r, &BSpec{
-			ID: "C04", Grammars: [2]int{64, 640}, Cases: [2]int{60, 120},
+			ID: "C04", Grammars: [2]int{108, 720}, Cases: [2]int{60, 120},
 			Gen: func(r *Run, i int, seed int) *gspec.Grammar {
 				switch {
 				case i == 0:
 					return allClassesGrammar(classes)
-				case i%5 == 4:
-					return gspec.LRGrammarGen(i%2 == 0).Example(seed)
+				case i%6 == 5:
+					return gspec.LRGrammarGen(i%4 == 1).Example(seed)
 				}
-				prof := []string{"names", "names", "codeblocks", "stateful", "throwrecover"}[i%5]
+				prof := []string{"names", "throwrecover", "codeblocks", "stateful", "names"}[i%6]
 				return gspec.GrammarGen(gspec.Profile(prof)).Example(seed)
 			},
 			Tweak: func(i int, g *gspec.Grammar) {
